@@ -1193,3 +1193,158 @@ Proof.
 Qed.
 End Grow.
 Print Assumptions truncate_grow_ok.
+
+(* ---------- handles: the repacked counter ---------- *)
+Definition handle_ok (fn : fnode) (p : ptr) : Prop :=
+  match rep p with
+  | Some r => r <= repacked fn /\ (r = repacked fn -> valid fn p)
+  | None => True
+  end.
+
+Lemma ptr_after_rep l p i so n rp : rep (ptr_after l p i so n rp) = rp.
+Proof. unfold ptr_after. destruct (slen (nthseg l i) =? so); reflexivity. Qed.
+
+Lemma valid_same_lengths fn fn' q :
+  map slen (segs fn') = map slen (segs fn) -> valid fn q -> valid fn' q.
+Proof.
+  intros Hm [Hoff Hc].
+  assert (Hlen : length (segs fn') = length (segs fn)).
+  { rewrite <- (map_length slen (segs fn')), Hm, map_length. reflexivity. }
+  assert (Hnth : forall i, slen (nthseg (segs fn') i) = slen (nthseg (segs fn) i)).
+  { intros i. unfold nthseg. rewrite <- !(map_nth slen). rewrite Hm. reflexivity. }
+  assert (Hpre : forall i, pre_len (segs fn') i = pre_len (segs fn) i).
+  { intros i. unfold pre_len.
+    assert (G : forall l, length (flat_map sbytes l) = list_sum (map slen l)).
+    { induction l as [|s l IH]; cbn [flat_map map list_sum length]; [reflexivity|].
+      rewrite app_length, IH. reflexivity. }
+    rewrite !G. rewrite <- !firstn_map. rewrite Hm. reflexivity. }
+  split; [rewrite Hpre; exact Hoff|].
+  rewrite Hlen, Hnth. exact Hc.
+Qed.
+
+Lemma skipn_cons_nth' (l : list seg) i : i < length l -> skipn i l = nthseg l i :: skipn (S i) l.
+Proof.
+  revert i. induction l as [|s l IH]; intros i Hi; cbn [length] in Hi; [inversion Hi|].
+  destruct i; [reflexivity|]. cbn [skipn]. rewrite IH by (apply Nat.succ_lt_mono; exact Hi). reflexivity.
+Qed.
+
+Section WriteTop.
+Variable mb : nat.
+Hypothesis mb_pos : 1 <= mb.
+
+(* one step: the writer's own ptr stays in sync; the node's counter is monotone, and if it did not
+   move then segment lengths did not change (so other handles' ptrs stay valid) *)
+Lemma write_step_rep fn p data :
+  WF fn -> valid fn p -> data <> [] ->
+  let '(fn', p', _) := write_step mb fn p data in
+  (rep p = Some (repacked fn) -> rep p' = Some (repacked fn')) /\
+  repacked fn <= repacked fn' /\
+  (repacked fn' = repacked fn -> map slen (segs fn') = map slen (segs fn)).
+Proof.
+  intros Hwf Hv Hd. unfold write_step. cbv zeta.
+  destruct ((0 <? soff p) && negb (cur_writable fn p)) eqn:E1.
+  - unfold ws_split. cbv zeta.
+    destruct (slen (nthseg (segs fn) (idx p)) - soff p <=? length (firstn mb data));
+      cbn [repacked]; rewrite ptr_after_rep; (split; [intros ->; reflexivity|split; [lia|intros; lia]]).
+  - destruct (cur_writable fn p) eqn:E2.
+    + unfold ws_inplace. cbv zeta. cbn [repacked segs]. rewrite ptr_after_rep.
+      split; [auto|split; [lia|intros _]].
+      (* lengths unchanged by an in-place write *)
+      unfold cur_writable in E2. destruct (idx p <? length (segs fn)) eqn:E3; [|discriminate].
+      apply Nat.ltb_lt in E3.
+      set (s := nthseg (segs fn) (idx p)).
+      set (cando := firstn (slen s - soff p) (firstn mb data)).
+      assert (Hc2 : length cando <= slen s - soff p) by (unfold cando; rewrite firstn_length; lia).
+      assert (Hso : soff p < slen s).
+      { destruct Hv as [_ [[_ B]|[A _]]]; [exact B|lia]. }
+      unfold set_nth. rewrite map_app. cbn [map].
+      rewrite <- (firstn_skipn (idx p) (segs fn)) at 3. rewrite map_app.
+      f_equal. rewrite (skipn_cons_nth' (segs fn) (idx p) E3). cbn [map]. f_equal.
+      unfold slen at 1. cbn [sbytes]. fold s. rewrite mem_write_length; [reflexivity|unfold slen in *; lia].
+    + destruct (prev_appendable mb (segs fn) (idx p)).
+      * unfold ws_grow_prev. cbv zeta.
+        destruct (adjust_cur fn (idx p) (firstn (mb - slen (nthseg (segs fn) (Nat.pred (idx p)))) (firstn mb data))) as [[c l1] sz].
+        cbn [repacked]. rewrite ptr_after_rep. split; [intros ->; reflexivity|split; [lia|intros; lia]].
+      * unfold ws_insert. cbv zeta.
+        destruct (adjust_cur fn (idx p) (firstn mb data)) as [[c l1] sz].
+        cbn [repacked]. rewrite ptr_after_rep. split; [intros ->; reflexivity|split; [lia|intros; lia]].
+Qed.
+
+Lemma write_loop_rep fuel : forall fn p data,
+  WF fn -> valid fn p -> off p <= length (content fn) -> length data <= fuel ->
+  let '(fn', p') := write_loop mb fuel fn p data in
+  (rep p = Some (repacked fn) -> rep p' = Some (repacked fn')) /\
+  repacked fn <= repacked fn' /\
+  (repacked fn' = repacked fn -> map slen (segs fn') = map slen (segs fn)).
+Proof.
+  induction fuel as [|fuel IH]; intros fn p data Hwf Hv Ho Hlen.
+  - destruct data; [|cbn [length] in Hlen; lia]. cbn [write_loop]. auto.
+  - destruct data as [|b data'] eqn:Ed; [cbn [write_loop]; auto|].
+    rewrite <- Ed in *. assert (Hd : data <> []) by (rewrite Ed; discriminate).
+    replace (write_loop mb (S fuel) fn p data) with
+      (let '(fn', p', n) := write_step mb fn p data in write_loop mb fuel fn' p' (skipn n data))
+      by (rewrite Ed; reflexivity).
+    destruct (write_step_ok mb mb_pos fn p data Hwf Hv Hd) as [Hok Hval].
+    pose proof (write_step_rep fn p data Hwf Hv Hd) as Hrep.
+    destruct (write_step mb fn p data) as [[fn1 p1] n] eqn:Es.
+    unfold step_ok, step_valid in *.
+    destruct Hok as (Hn & Hc1 & Hwf1 & Hoff1). destruct Hrep as (R1 & R2 & R3).
+    assert (Hlen1 : off p1 <= length (content fn1)).
+    { rewrite Hc1, Hoff1. unfold overwrite. rewrite !app_length, !firstn_length. lia. }
+    assert (Hsk : length (skipn n data) = length data - n) by apply skipn_length.
+    specialize (IH fn1 p1 (skipn n data) Hwf1 Hval Hlen1 ltac:(lia)).
+    destruct (write_loop mb fuel fn1 p1 (skipn n data)) as [fn' p'].
+    destruct IH as (A & B & C).
+    split; [auto|split; [lia|]].
+    intros He. assert (repacked fn1 = repacked fn) by lia. assert (repacked fn' = repacked fn1) by lia.
+    rewrite C by auto. apply R3; auto.
+Qed.
+
+Theorem fn_write_ok fn p0 data :
+  WF fn -> handle_ok fn p0 ->
+  let '(fn', p') := fn_write mb fn p0 data in
+  content fn' = overwrite (content fn ++ repeat 0 (off p0 - size fn)) (off p0) data /\
+  WF fn' /\ valid fn' p' /\ off p' = off p0 + length data /\ rep p' = Some (repacked fn') /\
+  (* other handles *)
+  (forall q, handle_ok fn q -> handle_ok fn' q).
+Proof.
+  intros Hwf Hh. unfold fn_write.
+  set (fn1 := if size fn <? off p0 then fn_truncate mb fn (off p0) else fn).
+  assert (H1 : content fn1 = content fn ++ repeat 0 (off p0 - size fn) /\ WF fn1 /\ off p0 <= size fn1 /\
+               repacked fn <= repacked fn1 /\
+               (repacked fn1 = repacked fn -> fn1 = fn)).
+  { unfold fn1. destruct (size fn <? off p0) eqn:E.
+    - apply Nat.ltb_lt in E. destruct (truncate_grow_ok mb mb_pos fn (off p0) Hwf E) as (A & B & C & D).
+      split; [exact A|]. split; [exact B|]. split; [lia|]. split; [lia|]. intros; lia.
+    - apply Nat.ltb_ge in E. replace (off p0 - size fn) with 0 by lia. cbn [repeat]. rewrite app_nil_r.
+      split; [reflexivity|]. split; [exact Hwf|]. split; [exact E|]. split; [lia|]. reflexivity. }
+  destruct H1 as (Hc1 & Hwf1 & Hle1 & Hmono1 & Hsame1).
+  assert (Hh1 : rep p0 = Some (repacked fn1) -> valid fn1 p0).
+  { intros Hr. unfold handle_ok in Hh. rewrite Hr in Hh. destruct Hh as [Hle Hv].
+    assert (repacked fn1 = repacked fn) by lia. rewrite (Hsame1 H) in *. apply Hv. congruence. }
+  destruct (seek_valid fn1 p0 Hwf1 Hle1 Hh1) as [Hv Hoff].
+  set (p := seek fn1 p0) in *.
+  assert (Hrp : rep p = Some (repacked fn1)).
+  { unfold p, seek. destruct (size fn1 <=? off p0); [reflexivity|].
+    destruct (rep p0) as [r|] eqn:Er.
+    - destruct (r =? repacked fn1) eqn:E.
+      + apply Nat.eqb_eq in E. subst r.
+        destruct (slen (nthseg (segs fn1) (idx p0)) <=? soff p0); [reflexivity|exact Er].
+      + destruct (locate (segs fn1) (off p0) 0); reflexivity.
+    - destruct (locate (segs fn1) (off p0) 0); reflexivity. }
+  assert (Hop : off p <= length (content fn1)).
+  { rewrite Hoff. destruct Hwf1 as [Hs _]. lia. }
+  pose proof (write_loop_ok mb mb_pos (length data + length (segs fn1) + 1) fn1 p data Hwf1 Hv Hop ltac:(lia)) as HL.
+  pose proof (write_loop_rep (length data + length (segs fn1) + 1) fn1 p data Hwf1 Hv Hop ltac:(lia)) as HR.
+  destruct (write_loop mb (length data + length (segs fn1) + 1) fn1 p data) as [fn' p'].
+  destruct HL as (A & B & C & D). destruct HR as (R1 & R2 & R3).
+  split; [rewrite A, Hc1, Hoff; reflexivity|].
+  split; [exact B|]. split; [exact C|]. split; [lia|]. split; [auto|].
+  intros q Hq. unfold handle_ok in *. destruct (rep q) as [r|]; [|exact I].
+  destruct Hq as [Hle Hvq]. split; [lia|].
+  intros Hr. assert (E1 : repacked fn1 = repacked fn) by lia. assert (E2 : repacked fn' = repacked fn1) by lia.
+  rewrite (Hsame1 E1) in *.
+  eapply valid_same_lengths; [apply R3; exact E2|]. apply Hvq. lia.
+Qed.
+End WriteTop.
+Print Assumptions fn_write_ok.
